@@ -34,7 +34,7 @@ def judge(t):
         t.world.probe('not-judged:compile-raised')
         return viol
     nsrc = len(scn.get('sources', ()))
-    multi = bool(scn.get('files'))
+    multi = bool(scn.get('files')) or bool(scn.get('alias'))
     # attempts: per lookup name, the sequence of (source, getData ok, parse ok, symtab all ok, trees)
     attempts = []
     for c in t.calls:
@@ -104,7 +104,7 @@ def judge(t):
         for (m, ast, mi) in a['mods']:
             sp = scn['modules'].get(m)
             if sp is not None:
-                lost = [d for d in sp.get('imports', []) if d not in mi.imported]
+                lost = [d for d in sp.get('imports', []) if sp.get('spell', {}).get(d, d) not in mi.imported]
                 if lost:
                     V('C08.1-closure', 'module %s imports %s but the compiler did not register them' % (m, lost), what='import-lost')
     # 3b. the tree handed to the generator is the one parsed from the first supplying source
@@ -126,7 +126,16 @@ def judge(t):
 
 
 def run(scn):
-    t = cs.run_world(scn)
+    root = core.new_root('c08') if scn.get('realfs') else None
+    try:
+        return _run(scn, root)
+    finally:
+        if root:
+            core.drop_root(root)
+
+
+def _run(scn, root):
+    t = cs.run_world(scn, root=root)
     viol = judge(t)
     specs = scn['modules']
     cyc = any(d in specs and n in specs[d].get('imports', []) for n, sp in specs.items() for d in sp.get('imports', []) if d != n)
